@@ -614,6 +614,12 @@ func (r *Resolver) AutoTA() {
 
 	finalRootKeys := []dns.RR{}
 	for _, ta := range kskCurrent {
+		// A revocation accepted in this run tombstones the key material; another
+		// entry of the same material (same public key under a different flags
+		// value) must not be published either, not only from the next run on.
+		if _, tombstoned := tombstones[dnskeyMaterialFP(ta.DNSKey)]; tombstoned {
+			continue
+		}
 		if ta.State == StateValid || ta.State == StateMissing {
 			finalRootKeys = append(finalRootKeys, ta.DNSKey)
 		}
